@@ -9,13 +9,30 @@ def val(o):
     return lc.value if lc is not None else o
 
 
+LAST_WIRES = []
+
+
 def compare(obs, ctx, native):
+    del LAST_WIRES[:]
+    for nm in sorted(native):
+        if nm in ctx.vals:
+            LAST_WIRES.extend(v for v in _flat(ctx.vals[nm]) if lincomb_of(v) is not None)
     for nm, want in native.items():
         if nm not in ctx.vals:
             obs.append(("variable %s exists after the construct" % nm, False))
             continue
         obs.append(("variable %s ends with the value native control flow gives" % nm, ("eq", val(ctx.vals[nm]), want)))
     obs.append(("no other variable appears", sorted(ctx.vals) == sorted(native)))
+
+
+def _flat(o):
+    if isinstance(o, (list, tuple)):
+        for x in o:
+            yield from _flat(x)
+    elif hasattr(o, "arr"):
+        yield from _flat(o.arr)
+    else:
+        yield o
 
 
 def bitcond(k, nm, kind):
@@ -82,6 +99,61 @@ def p_elif(k, kind):
     obs = []
     compare(obs, _, nat)
     return obs
+
+
+def p_elif2(k, kind):
+    """a chain with two _elif parts and an _else: the 'nothing taken so far' condition must accumulate"""
+    br = k.br
+    _ = br.BranchingValues()
+    _.x = k.S("x")
+    if br._if(bitcond(k, "c", kind), ctx=_):
+        _.x = 10
+    if br._elif(lambda: bitcond(k, "d", kind), ctx=_):
+        _.x = 20
+    if br._elif(lambda: bitcond(k, "e", kind), ctx=_):
+        _.x = 30
+    if br._else(ctx=_):
+        _.x = 40
+    br._endif(ctx=_)
+    c, d, e = k.v("c"), k.v("d"), k.v("e")
+    nat = {"x": 10 if c else (20 if d else (30 if e else 40))}
+    obs = []
+    compare(obs, _, nat)
+    return obs
+
+
+def p_elif_cmp(k, kind):
+    """the _elif condition is an ordering comparison on secrets (guard-sensitive): it belongs to the state before the _if"""
+    br = k.br
+    _ = br.BranchingValues()
+    x = k.S("x")
+    _.r = 0
+    if br._if(bitcond(k, "c", kind), ctx=_):
+        _.r = 1
+    if br._elif(lambda: x < 5, ctx=_):
+        _.r = 2
+    if br._else(ctx=_):
+        _.r = 3
+    br._endif(ctx=_)
+    c, xv = k.v("c"), k.v("x")
+    nat = {"r": 1 if c else (2 if xv < 5 else 3)}
+    obs = []
+    compare(obs, _, nat)
+    return obs
+
+
+def p_lazy_cmp_branches(k, kind):
+    """lazy selection whose two callable branches both contain guard-sensitive operations"""
+    br = k.br
+    c = k.B("c") if kind != "cmp" else (k.S("c") > 0)
+    x = k.S("x"); y = k.S("y")
+    r = br.if_then_else(c, lambda: br.if_then_else(x < y, x, y), lambda: br.if_then_else(x < y, y, x))
+    del LAST_WIRES[:]
+    LAST_WIRES.append(r)
+    cv, xv, yv = k.v("c"), k.v("x"), k.v("y")
+    mn = xv if xv < yv else yv
+    mx = yv if xv < yv else xv
+    return [("lazy selection with comparing branches returns the value native control flow gives", ("eq", val(r), mn if cv else mx))]
 
 
 def p_nested(k, kind):
@@ -194,7 +266,7 @@ def p_for(k, kind):
     nv, x = k.v("n"), k.v("x")
     s, last = 0, -1
     for i in range(3):
-        if i == nv:
+        if i >= nv:            # native: for i in range(nv) -- empty when the bound is not above the start
             break
         s = s + i + x
         last = i
@@ -246,7 +318,7 @@ def p_for_break(k, kind):
     nv, x, bv = k.v("n"), k.v("x"), k.v("b")
     s, last = 0, -1
     for i in range(3):
-        if i == nv:
+        if i >= nv:            # native: for i in range(nv) -- empty when the bound is not above the start
             break
         s = s + i + x
         last = i
@@ -271,7 +343,7 @@ def p_forcheck(k, kind):
     nv = k.v("n")
     s = 0
     for i in range(3):
-        if i == nv:
+        if i >= nv:            # native: for i in range(nv) -- empty when the bound is not above the start
             break
         s = s + i
     obs = [("a secret bound above the public maximum is rejected", nv <= 3)]
@@ -284,6 +356,8 @@ def p_lazy(k, kind):
     c = k.B("c") if kind != "cmp" else (k.S("c") > 0)
     x = k.S("x"); y = k.S("y")
     r = br.if_then_else(c, lambda: x * y, lambda: x + y)
+    del LAST_WIRES[:]
+    LAST_WIRES.append(r)
     cv, xv, yv = k.v("c"), k.v("x"), k.v("y")
     return [("lazy selection returns the value of the branch native control flow takes", ("eq", val(r), (xv * yv) if cv else (xv + yv)))]
 
@@ -298,7 +372,9 @@ def p_lazy_div(k, kind):
     return [("lazy selection guards the untaken branch", ("eq", val(r), (yv // 3) if (xv * 3 == yv) else (xv + 1)))]
 
 
-PROGRAMS = {"if_else": (p_if_else, ("c", "x")), "if_only": (p_if_only, ("c", "x", "y")), "elif": (p_elif, ("c", "d", "x")),
+PROGRAMS = {"elif2": (p_elif2, ("c", "d", "e", "x")), "elif_cmp": (p_elif_cmp, ("c", "x")),
+            "lazy_cmp_branches": (p_lazy_cmp_branches, ("c", "x", "y")),
+            "if_else": (p_if_else, ("c", "x")), "if_only": (p_if_only, ("c", "x", "y")), "elif": (p_elif, ("c", "d", "x")),
             "nested": (p_nested, ("c", "d", "x")), "nestedop": (p_nested_op, ("c", "x")), "matrix": (p_matrix, ("c", "x")), "while": (p_while, ("n", "b", "x")), "for": (p_for, ("n", "x")),
             "while_pubbreak": (p_while_pubbreak, ("n", "x")), "for_break": (p_for_break, ("n", "b", "x")), "forcheck": (p_forcheck, ("n",)),
             "lazy": (p_lazy, ("c", "x", "y")), "lazy_div": (p_lazy_div, ("x", "y"))}
@@ -308,7 +384,7 @@ def build(n=4, tier="quick"):
     ents = []
     for nm, (prog, ins) in PROGRAMS.items():
         kinds = ("plain", "cmp") if nm not in ("lazy_div", "while", "for", "forcheck") else ("cmp",)
-        if nm == "lazy":
+        if nm in ("lazy", "lazy_cmp_branches"):
             kinds = ("bool", "cmp")
         if nm in ("while_pubbreak", "for_break"):
             kinds = ("plain", "cmp")
@@ -316,8 +392,10 @@ def build(n=4, tier="quick"):
             def assume(k, ins=ins, nm=nm):
                 cs = []
                 for i in ins:
-                    if i in ("c", "d"):
+                    if i in ("c", "d", "e"):
                         cs.append((k.v(i) == 0) | (k.v(i) == 1))
+                    elif i == "n" and nm in ("for", "for_break"):
+                        cs.append((k.v(i) >= -2) & (k.v(i) <= 4))      # a bound below the start: native range() is empty
                     elif i in ("n", "b"):
                         cs.append((k.v(i) >= 0) & (k.v(i) <= 4))
                     elif nm == "nestedop":
@@ -327,6 +405,10 @@ def build(n=4, tier="quick"):
                 return cs
             ents.append(Entry("ctl_%s_%s" % (nm, kind), (lambda k, prog=prog, kind=kind: prog(k, kind)), ins, assume=assume,
                               tags={"c09", nm, kind}))
+            if nm not in ("forcheck", "lazy_div"):
+                # the same program, returning the wires of its final variables (for uniqueness / value-vs-wire analyses)
+                ents.append(Entry("ctlout_%s_%s" % (nm, kind), (lambda k, prog=prog, kind=kind: (prog(k, kind), list(LAST_WIRES))[1]),
+                                  ins, assume=assume, tags={"c09out", nm, kind}))
     return ents
 
 
